@@ -208,3 +208,54 @@ Example C17b_refused_open_spoils_destroy :
   pw_files (fst (prun true pworld_init acts)) = true /\
   pw_dphase (fst (prun true pworld_init acts)) = 0.
 Proof. exact refused_open_spoils_destroy. Qed.
+
+(** ** C17c — [FileSystem::lock_file] in its two system calls (open the LOCK file, then flock it),
+    flocks attached to inodes, [destroy_database] unlinking the name in between: the repaired code
+    (the name is looked up again after the flock, [verify = true]) keeps a single owner in every
+    interleaving; the pinned code is refuted (defect D20) *)
+From RainVerif.model Require Import LockFd.
+From RainVerif.proofs Require Import LockFdProofs.
+
+Theorem C17c_lockfd_single_owner : forall acts, f_one_owner (fst (frun true fworld_init acts)).
+Proof. exact lockfd_single_owner. Qed.
+Print Assumptions C17c_lockfd_single_owner.
+
+Theorem C17c_lockfd_single_owner_always : forall acts, Forall f_one_owner (ftrace true fworld_init acts).
+Proof. exact lockfd_single_owner_always. Qed.
+Print Assumptions C17c_lockfd_single_owner_always.
+
+Theorem C17c_lockfd_refused_while_open : forall w h0,
+  finv w -> fw_open w = [h0] ->
+  (forall h, h <> h0 -> ~ In h (map fst (fw_fds w)) ->
+     snd (fstep true w (LfOpen h)) = LfErr /\ fw_open (fst (fstep true w (LfOpen h))) = fw_open w /\
+     fst (fstep true w (LfOpen h)) = w) /\
+  (forall h i, lookup_fd h (fw_fds w) = Some i ->
+     snd (fstep true w (LfLock h)) = LfErr /\ fw_open (fst (fstep true w (LfLock h))) = fw_open w /\
+     fw_locks (fst (fstep true w (LfLock h))) = fw_locks w /\
+     fw_cur (fst (fstep true w (LfLock h))) = fw_cur w) /\
+  snd (fstep true w LfDestroy) = LfErr /\ fst (fstep true w LfDestroy) = w.
+Proof. exact lockfd_refused_while_open. Qed.
+Print Assumptions C17c_lockfd_refused_while_open.
+
+Theorem C17c_lockfd_reachable_inv : forall w, freach true w -> finv w.
+Proof. exact freach_finv. Qed.
+Print Assumptions C17c_lockfd_reachable_inv.
+
+Theorem C17c_lockfd_race_one_winner : forall w a b acts,
+  finv w -> fw_open w = [] -> fw_fds w = [] -> a <> b -> In acts (race_orders a b) ->
+  lock_oks acts (snd (frun true w acts)) = 1%nat /\
+  length (lock_outs acts (snd (frun true w acts))) = 2%nat /\
+  length (fw_open (fst (frun true w acts))) = 1%nat.
+Proof. exact lockfd_race_one_winner. Qed.
+Print Assumptions C17c_lockfd_race_one_winner.
+
+Theorem C17c_lockfd_pinned_refuted : exists acts, ~ f_one_owner (fst (frun false fworld_init acts)).
+Proof. exact lockfd_pinned_refuted. Qed.
+Print Assumptions C17c_lockfd_pinned_refuted.
+
+Example C17c_lockfd_repaired_on_race_schedule :
+  snd (frun true fworld_init fd_race_schedule) = [LfParked; LfOk; LfOk; LfErr] /\
+  fw_open (fst (frun true fworld_init fd_race_schedule)) = [2] /\
+  fw_locks (fst (frun true fworld_init fd_race_schedule)) = [(1, 2)] /\
+  fw_fds (fst (frun true fworld_init fd_race_schedule)) = [].
+Proof. exact lockfd_repaired_on_race_schedule. Qed.
